@@ -64,6 +64,19 @@ def list_ops(defs, locs):
                 ops.append(("load", t, dsc, False))
             else:
                 ops.append(("register", t, dsc))
+            # one load() call holding two entries: the same target twice (the later entry replaces the
+            # earlier one within the call), and two different targets
+            other = cands[(len(defs) + 1) % len(cands)]
+            if other != dsc:
+                ops.append(("loadn", ((t, other), (t, dsc))))
+    if len(locs) >= 2:
+        t1, t2 = locs[len(defs) % len(locs)], locs[(len(defs) + 1) % len(locs)]
+        c1, c2 = U.candidates(t1, locs, False), U.candidates(t2, locs, False)
+        pair = ((t1, c1[0]), (t2, c2[-1]))
+        nd = dict(defs)
+        nd.update(dict(pair))
+        if t1 != t2 and not U.is_cyclic(nd):
+            ops.append(("loadn", pair))
     return ops
 
 
@@ -243,6 +256,17 @@ class HState(c01.State):
     def apply(self, op):
         self.oplog.append(op)
         kind = op[0]
+        if kind == "loadn":
+            entries = []
+            for t, dsc in op[1]:
+                entries.append((str(U.getref(self.r, t)), str(U.build(dsc, self.r, self.fr))))
+            self.hist.append("load([" + ", ".join(f"{t} = {U.show(dsc)}" for t, dsc in op[1]) + "])")
+            self.m.load(entries)
+            for t, dsc in op[1]:
+                self.defs[t] = dsc
+                self._touch(t)
+            self.ex.notes["load_many"] = self.ex.notes.get("load_many", 0) + 1
+            return
         if kind in ("load", "register"):
             t, dsc = op[1], op[2]
             self.hist.append(f"{kind}({t} = {U.show(dsc)}" + (f", overwrite={op[3]})" if kind == "load" else ")"))
